@@ -476,6 +476,9 @@ func (u *Unit) modTargets(st *State, env *specEnv, m Clause) (ts []modTarget, er
 			name = id.Name
 		}
 		switch name {
+		case "atomic":
+			v := u.specEval(env, x.Args[0])
+			return []modTarget{{atomicHeapOf(v.T), v.S, nil}}, nil
 		case "backing":
 			v := u.specEval(env, x.Args[0])
 			if v.Kind == KSlice {
@@ -597,6 +600,17 @@ func (u *Unit) havocTarget(st *State, env *specEnv, m Clause) (err error) {
 			name = id.Name
 		}
 		switch name {
+		case "atomic":
+			v := u.specEval(env, x.Args[0])
+			hn := atomicHeapOf(v.T)
+			sort := sArr(SInt, SInt)
+			es := SInt
+			if hn == "ATOM$bool" {
+				sort, es = sArr(SInt, SBool), SBool
+			}
+			u.logWrite(st, hn, v.S)
+			u.setHeap(st, hn, sort, tStore(u.heapTerm(st, hn, sort), v.S, u.fresh("atomic", es)))
+			return nil
 		case "backing":
 			v := u.specEval(env, x.Args[0])
 			if v.Kind == KSlice {
@@ -1225,4 +1239,22 @@ func (u *Unit) funcAlias(fun ast.Expr) *types.Func {
 		}
 	}
 	return nil
+}
+
+
+func atomicHeapOf(T types.Type) string {
+	if T != nil {
+		if p, ok := T.Underlying().(*types.Pointer); ok {
+			T = p.Elem()
+		}
+		if n, ok := types.Unalias(T).(*types.Named); ok {
+			switch n.Obj().Name() {
+			case "Bool":
+				return "ATOM$bool"
+			case "Value", "Pointer":
+				return "ATOM$ref"
+			}
+		}
+	}
+	return "ATOM$int"
 }
